@@ -425,6 +425,8 @@ func TestC12(t *testing.T) { Run(t, propC12()) }
 
 func FuzzGenC12(f *testing.F) { RunFuzz(f, propC12()) }
 
+func TestRaceC12(t *testing.T) { RunConcurrent(t, propC12(), 4) }
+
 // collectOf returns copies of the items of CanonicalSubsequences(s, k).
 func collectOf(s []byte, k int) (items [][]byte, err error) {
 	if p := catch(func() {
